@@ -18,6 +18,7 @@ import DK.Props.C11c
 import DK.Props.C11d
 import DK.Props.C12
 import DK.Props.C13
+import DK.Props.C13find
 import DK.Props.C14
 import DK.Props.C14b
 import DK.Props.C15
